@@ -221,7 +221,59 @@ fn sweep_items(_tier: Tier) -> Box<dyn Iterator<Item = Case>> {
         v.push(Case::Pair(a.to_vec(), b.to_vec()));
         v.push(Case::Pair(a.to_vec(), a.to_vec()));
     }
+    // all 32640 pairs differing in exactly two of the 256 bits (differences that could cancel in a folded comparison)
+    for b1 in 0..256usize {
+        for b2 in b1 + 1..256usize {
+            let a = base(9000 + (b1 * 256 + b2) as u64 % 64);
+            let mut b = a;
+            b[b1 / 8] ^= 1 << (b1 % 8);
+            b[b2 / 8] ^= 1 << (b2 % 8);
+            v.push(Case::Pair(a.to_vec(), b.to_vec()));
+        }
+    }
+    // the same XOR difference applied to every non-empty set of lanes, for lane widths 16, 8, 4 and 2 bytes
+    for (w, deltas) in [(16usize, 4u64), (8, 8), (4, 4), (2, 1)] {
+        let lanes = 32 / w;
+        for mask in 1u32..(1u32 << lanes) {
+            for d in 0..deltas {
+                let a = base(12000 + mask as u64 % 16);
+                let mut delta = vec![0u8; w];
+                fill_random(&mut delta, 13000 + d + 31 * w as u64);
+                if d == 0 {
+                    delta = vec![0; w];
+                    delta[w - 1] = 1;
+                }
+                let mut b = a;
+                for l in 0..lanes {
+                    if mask >> l & 1 == 1 {
+                        for k in 0..w {
+                            b[l * w + k] ^= delta[k];
+                        }
+                    }
+                }
+                v.push(Case::Pair(a.to_vec(), b.to_vec()));
+            }
+        }
+    }
     Box::new(v.into_iter())
+}
+
+/// pairs whose XOR difference is structured: the same (or independent) delta in a random set of lanes
+fn lane_pair(a: [u8; 32], wsel: u8, mask: u32, d1: [u8; 16], d2: [u8; 16], indep: bool) -> Case {
+    let w = [1usize, 2, 4, 8, 16][wsel as usize % 5];
+    let lanes = 32 / w;
+    let mut b = a;
+    let mut first = true;
+    for l in 0..lanes {
+        if mask >> l & 1 == 1 {
+            let d = if indep && !first { &d2 } else { &d1 };
+            first = false;
+            for k in 0..w {
+                b[l * w + k] ^= d[k];
+            }
+        }
+    }
+    Case::Pair(a.to_vec(), b.to_vec())
 }
 
 fn random_strategy(_tier: Tier) -> BoxedStrategy<Case> {
@@ -240,6 +292,8 @@ fn random_strategy(_tier: Tier) -> BoxedStrategy<Case> {
             }
             Case::Pair(a.to_vec(), b.to_vec())
         }),
+        3 => (any::<[u8; 32]>(), 0u8..5, any::<u32>(), any::<[u8; 16]>(), any::<[u8; 16]>(), any::<bool>()).prop_map(|(a, w, m, d1, d2, i)| lane_pair(a, w, m, d1, d2, i)),
+        1 => (any::<[u8; 32]>(), any::<[u8; 32]>()).prop_map(|(a, b)| Case::Pair(a.to_vec(), b.to_vec())),
     ]
     .boxed()
 }
@@ -248,7 +302,7 @@ pub fn subs() -> Vec<Box<dyn DynSub>> {
     vec![
         Box::new(EnumSub::<Case> {
             name: "sweeps",
-            rule: "enumeration: every byte value at every position of a hash (8192 values: to_hex/Display/from_hex/FromStr/[u8;32]/as_bytes/as_slice/from_slice/serde JSON+CBOR sequence form/legacy CBOR byte string); every byte value at every position of an otherwise valid lower- or upper-case hex string (16384 inputs); hex and non-hex strings of every length 0..=130; from_slice for every length 0..=100; all 256 single-bit-different pairs and equal pairs; oracle = independent hex codec and byte equality",
+            rule: "enumeration: every byte value at every position of a hash (8192 values: to_hex/Display/from_hex/FromStr/[u8;32]/as_bytes/as_slice/from_slice/serde JSON+CBOR sequence form/legacy CBOR byte string); every byte value at every position of an otherwise valid lower- or upper-case hex string (16384 inputs); hex and non-hex strings of every length 0..=130; from_slice for every length 0..=100; all 256 single-bit-different pairs and equal pairs; all 32640 two-bit-different pairs; the same XOR difference in every non-empty set of 16/8/4/2-byte lanes (differences that cancel in a folded comparison); oracle = independent hex codec and byte equality",
             items: sweep_items,
             classify,
             check,
@@ -258,7 +312,7 @@ pub fn subs() -> Vec<Box<dyn DynSub>> {
         }),
         Box::new(PropSub::<Case> {
             name: "random",
-            rule: "proptest: random hashes, 64-char strings over hex digits in random case with occasional arbitrary bytes, hex strings of random length 0..=130, arbitrary byte strings and Unicode strings as hex input, slices of length 0..=100, equal/different pairs; non-trivial = all except equal pairs",
+            rule: "proptest: random hashes, 64-char strings over hex digits in random case with occasional arbitrary bytes, hex strings of random length 0..=130, arbitrary byte strings and Unicode strings as hex input, slices of length 0..=100, equal/different pairs (single byte, structured lane differences with equal or independent deltas, independent values); non-trivial = all except equal pairs",
             cases: (60_000, 1_000_000),
             strategy: random_strategy,
             classify,
